@@ -438,3 +438,63 @@ T('h_gz_data_property', ['C15'],
   (GZ, "        resp.response = [comp_content]\n", "        resp.data = comp_content\n"))
 B('h_gz_set_data_of_original', ['C15'], 'R15.d',
   (GZ, "        resp.response = [comp_content]\n        resp.content_length = len(comp_content)\n", "        resp.set_data(resp.data)\n"))
+T('h_report_count_temp', ['C19'],
+  (STATS, "        desc_dict['count'] = hits.total_count  # need to account for reservoir count\n",
+          "        seen = hits.total_count\n        desc_dict['count'] = seen\n"))
+T('h_report_update_literal', ['C19'],
+  (STATS, "        desc_dict['count'] = hits.total_count  # need to account for reservoir count\n        desc_dict['last_hit'] = datetime.datetime.fromtimestamp(hits.last_hit).isoformat()\n        desc_dict['total_duration'] = round(hits.total_duration * 1000, 2)\n",
+          "        desc_dict.update({'count': hits.total_count,\n                          'last_hit': datetime.datetime.fromtimestamp(hits.last_hit).isoformat(),\n                          'total_duration': round(hits.total_duration * 1000, 2)})\n"))
+T('h_report_star_merge', ['C19'],
+  (STATS, "        ret[status] = cur = {}\n", ''),
+  (STATS, "        desc_dict['count'] = hits.total_count  # need to account for reservoir count\n", ''),
+  (STATS, '        cur.update(desc_dict)\n', "        ret[status] = {**desc_dict, 'count': hits.total_count}\n"))
+T('h_report_loop_helper', ['C19'],
+  (STATS, _ST_ROUTE_STATS, '''def _one_status(hits):
+    durs = [round(h.duration * 1000, 2) for h in hits]
+    out = Stats(durs, use_copy=False).describe(quantiles=[0.25, 0.5, 0.75, 0.95, 0.99], format="dict")
+    out['count'] = hits.total_count
+    out['last_hit'] = datetime.datetime.fromtimestamp(hits.last_hit).isoformat()
+    out['total_duration'] = round(hits.total_duration * 1000, 2)
+    return out
+
+
+def _get_route_stats(rt_hits):
+    ret = {}
+    for status, hits in rt_hits.items():
+        ret[status] = _one_status(hits)
+    return ret
+'''))
+B('h_report_count_temp_sample_size', ['C19'], 'R19.b',
+  (STATS, "        desc_dict['count'] = hits.total_count  # need to account for reservoir count\n",
+          "        seen = len(durs)\n        desc_dict['count'] = seen\n"))
+_ST_REQUEST = '''        start_time = time.time()
+        try:
+            resp = next()
+            resp_status = repr(getattr(resp, 'status_code', resp.__class__.__name__))
+            resp_mime_type = (getattr(resp, 'content_type', None) or '').partition(';')[0]
+        except Exception as e:
+            # see Werkzeug #388
+            resp_status = repr(getattr(e, 'code', e.__class__.__name__))
+            resp_mime_type = getattr(e, 'content_type', '').partition(';')[0]
+            raise
+''' + _ST_FINALLY
+B('h_stats_record_only_on_error_path', ['C19'], 'R19.a',
+  (STATS, _ST_REQUEST, '''        start_time = time.time()
+        try:
+            resp = next()
+        except Exception as e:
+            resp_status = repr(getattr(e, 'code', e.__class__.__name__))
+            resp_mime_type = getattr(e, 'content_type', '').partition(';')[0]
+            self._record(_route, request, start_time, resp_status, resp_mime_type)
+            raise
+        resp_status = repr(getattr(resp, 'status_code', resp.__class__.__name__))
+        resp_mime_type = (getattr(resp, 'content_type', None) or '').partition(';')[0]
+        return resp
+
+    def _record(self, route, request, start_time, status, mime_type):
+        duration = time.time() - start_time
+        self.route_hits[route][status].add(Hit(start_time, request.path, route.pattern, status, duration, mime_type))
+'''))
+B('h_stats_record_twice_on_error_path', ['C19'], 'R19.a',
+  (STATS, "            resp_mime_type = getattr(e, 'content_type', '').partition(';')[0]\n            raise\n",
+          "            resp_mime_type = getattr(e, 'content_type', '').partition(';')[0]\n            self.route_hits[_route][resp_status].add(Hit(start_time, request.path, _route.pattern, resp_status, 0.0, resp_mime_type))\n            raise\n"))
